@@ -4,9 +4,13 @@ import DmrVerif.Model.Storage
 Line protocol for the storage model (C20; the value / record printers are reused by C18).
 
 Values:  `N` None · `i<n>` int (Python bools are printed as ints) · `s<cps>` str · `a<cps>:<port>`
-address tuple · `u<n>` the n-th UUID of the counter oracle.  `<cps>` = code points joined by `.`.
+address tuple · `u<n>` the n-th UUID of the counter oracle · `t<cps>:<n>:<n>…` a tuple `(str, int, …)` of
+arity ≠ 2 (IPv6 peers) · `l<cps>:<n>…` a list `[str, int, …]` · `c<cps>:<cps>` a tuple `(str, str)`.
+`<cps>` = code points joined by `.`.
 Patches: `-` (empty) or `key=val,key=val`; a key that is one of the nine data member names is a
-`Key.field`, any other name is a dynamic attribute.
+`Key.field`, any other name is a dynamic attribute.  A malformed patch ends with `!T` (the next key is no
+`str`: `TypeError`) or is `!A` (a non-empty sized object that is no mapping: `AttributeError`).
+`ma` with the name `!` : a name that is no `str`.
 -/
 
 namespace Dmr.Driver.Storage
@@ -23,6 +27,9 @@ def valToString : Val → String
   | .str s => "s" ++ cpsToString s
   | .addr ip p => "a" ++ cpsToString ip ++ ":" ++ toString p
   | .uuid n => "u" ++ toString n
+  | .tupN ip rest => "t" ++ ":".intercalate (cpsToString ip :: rest.map toString)
+  | .lstN ip rest => "l" ++ ":".intercalate (cpsToString ip :: rest.map toString)
+  | .addrS ip port => "c" ++ cpsToString ip ++ ":" ++ cpsToString port
 
 def parseVal (s : String) : Option Val :=
   match s.toList with
@@ -36,6 +43,27 @@ def parseVal (s : String) : Option Val :=
       let ip ← parseCps ip
       let port ← port.toNat?
       pure (.addr ip port)
+    | _ => none
+  | 't' :: r =>
+    match (String.ofList r).splitOn ":" with
+    | ip :: rest => do
+      let ip ← parseCps ip
+      let rest ← rest.mapM String.toNat?
+      if rest.length = 1 then none else pure (.tupN ip rest)    -- the arity-2 tuple is `a…`
+    | _ => none
+  | 'l' :: r =>
+    match (String.ofList r).splitOn ":" with
+    | ip :: rest => do
+      let ip ← parseCps ip
+      let rest ← rest.mapM String.toNat?
+      pure (.lstN ip rest)
+    | _ => none
+  | 'c' :: r =>
+    match (String.ofList r).splitOn ":" with
+    | [ip, port] => do
+      let ip ← parseCps ip
+      let port ← parseCps port
+      pure (.addrS ip port)
     | _ => none
   | _ => none
 
@@ -51,6 +79,13 @@ def parsePatch (s : String) : Option Patch :=
     match e.splitOn "=" with
     | [k, v] => (parseVal v).map (fun v => (parseKey k, v))
     | _ => none)
+
+/-- a patch argument: well formed, or the entries before the exception and the exception -/
+def parsePatchArg (s : String) : Option (Patch × Option Err) :=
+  if s == "!A" then some ([], some .attributeError)
+  else if s == "!T" then some ([], some .typeError)
+  else if s.endsWith ",!T" then (parsePatch (s.dropEnd 3).toString).map (fun p => (p, some .typeError))
+  else (parsePatch s).map (fun p => (p, none))
 
 def errName : Err → String
   | .attributeError => "AttributeError" | .keyError => "KeyError" | .systemError => "SystemError"
@@ -79,16 +114,20 @@ def parseOp (op : String) (args : List String) : Option Op :=
   match op, args with
   | "mi", [a, au, p] => do
     let a ← parseVal a
-    let p ← parsePatch p
-    if au == "1" then pure (.matchIncoming a true p)
-    else if au == "0" then pure (.matchIncoming a false p) else none
+    let p ← parsePatchArg p
+    let au ← (if au == "1" then some true else if au == "0" then some false else none)
+    match p.2 with
+    | none => pure (.matchIncoming a au p.1)
+    | some e => pure (.matchIncomingBad a au p.1 e)
   | "save", [r, p] => do
     let r ← parseRef r
-    let p ← parsePatch p
-    pure (.save r p)
+    let p ← parsePatchArg p
+    match p.2 with
+    | none => pure (.save r p.1)
+    | some e => pure (.saveBad r p.1 e)
   | "ma", [n, v] => do
     let v ← parseVal v
-    pure (.matchAttr (match parseField n with | some f => .field f | none => .unknown) v)
+    pure (.matchAttr (if n == "!" then .bad else match parseField n with | some f => .field f | none => .unknown) v)
   | "mip", [ip] => do
     let ip ← parseCps (if ip == "-" then "" else ip)
     pure (.matchIpIncoming ip)
@@ -102,8 +141,10 @@ def parseOp (op : String) (args : List String) : Option Op :=
     pure (.deleteAttr r k)
   | "patch", [r, p] => do
     let r ← r.toNat?
-    let p ← parsePatch p
-    pure (.patch r p)
+    let p ← parsePatchArg p
+    match p.2 with
+    | none => pure (.patch r p.1)
+    | some e => pure (.patchBad r p.1 e)
   | _, _ => none
 
 /-- stateful step of the C20 driver: answer = result of the call, `len(storage)` after it, and
